@@ -693,7 +693,6 @@ func c17Backend(ctx *Ctx, p *c17Proc, cfg c17Cfg, r *hv.Rng, full bool) {
 	}
 }
 
-
 // ---- connection storms: the reader and the writer of one client connection failing together ----
 // Each hostile connection pipelines valid requests the proxy answers by itself (so its writer
 // goroutine has work), then a frame that fails decoding (the reader goroutine fails), and is then
